@@ -945,6 +945,18 @@ func (p *Path) chanRecv(ch *Chan) (Value, bool) {
 	if ch.closed {
 		return zero(ch.elemT), false
 	}
+	// lazy schedule: the receiver blocks, so the pending goroutines get to run
+	for len(p.pendingGo) > 0 {
+		p.runPendingOne()
+		if len(ch.q) > 0 {
+			v := ch.q[0]
+			ch.q = ch.q[1:]
+			return v, true
+		}
+		if ch.closed {
+			return zero(ch.elemT), false
+		}
+	}
 	// In the sequential semantics every goroutine that could send has
 	// already run to completion, so this receive would block forever.
 	panic(targetPanic{msg: "receive on empty channel: would block forever (deadlock) in sequential semantics"})
@@ -1077,4 +1089,11 @@ func mask64(w int) uint64 {
 		return ^uint64(0)
 	}
 	return uint64(1)<<uint(w) - 1
+}
+
+// runPendingOne runs the oldest pending goroutine (lazy schedule) to completion.
+func (p *Path) runPendingOne() {
+	g := p.pendingGo[0]
+	p.pendingGo = p.pendingGo[1:]
+	g()
 }
